@@ -196,7 +196,10 @@ func (run *FuncRun) applyIterates(st *State, fc *FuncContract, env *CEnv, names 
 	lname := shortKey(fc.Key) + "." + fc.Iterates
 	spec := run.contract.Loops[lname]
 	if cfc == nil || spec == nil {
-		return false
+		// an iteration (H calls the closure once per element) is a loop of this function: without
+		// a loop contract for it nothing can be proved about what follows, exactly as for a
+		// syntactic loop without an invariant - the function is DEGRADED, not alarmed
+		fail("%s: the closure iterated by %s (%s) has no loop contract %q", run.key, fc.Key, where, "loop "+lname)
 	}
 	vl := &virtLoop{entry: st.Snap(), locals: map[*ssa.Alloc]Val{}}
 	for f := st.frame; f != nil; f = f.parent {
